@@ -190,7 +190,7 @@ def operator_queries(facts):
 NULLABLE = {'int': 'lineno % 0', 'Decimal': 'cost_number', 'str': 'cost_label', 'date': 'cost_date', 'bool': '(cost_number > 0)',
             'relativedelta': "interval(cost_label)", 'Amount': 'price', 'Position': "filter_currency(position, 'NOSUCH')"}
 MIX_TYPES = ['int', 'Decimal', 'str', 'date', 'bool', 'relativedelta', 'Amount', 'Position', 'Inventory', 'set']
-BINOPS = ['+', '-', '*', '/', '%', '=', '!=', '<', '<=', '>', '>=', '~', 'IN']
+BINOPS = ['+', '-', '*', '/', '%', '=', '!=', '<', '<=', '>', '>=', '~', 'IN', 'AND', 'OR']
 
 
 def mixed_queries(facts):
@@ -207,6 +207,14 @@ def mixed_queries(facts):
             for op in BINOPS:
                 out.append(('%s %s %s' % (ta, op, tb), 'SELECT %s %s %s AS v FROM #postings' % (a2, op, b2)))
                 out.append(('%s %s %s in where' % (ta, op, tb), 'SELECT account FROM #postings WHERE %s %s %s' % (a2, op, b2)))
+    for ta in MIX_TYPES:
+        a = ARG[ta][0]
+        out.append(('NOT %s' % ta, 'SELECT NOT %s AS v FROM #postings' % a))
+        out.append(('%s AND TRUE' % ta, 'SELECT %s AND TRUE AS v, TRUE AND %s AS w, %s OR FALSE AS x FROM #postings' % (a, a, a)))
+    # pivoted results: the announced datatypes follow the moved columns
+    for by in ('1, 2', '2, 1', 'account, year', 'year, account', '3, 4', '4, 3'):
+        out.append(('pivot by %s' % by, 'SELECT account, year, sum(number) AS total, last(date) AS d GROUP BY account, year PIVOT BY %s' % by))
+        out.append(('pivot permuted by %s' % by, 'SELECT sum(number) AS total, last(date) AS d, account, year GROUP BY account, year PIVOT BY %s' % by))
     return out
 
 
